@@ -257,3 +257,15 @@ Proof.
   destruct (canon_invariant dbl dbl_inj g' gm lab' p' labm pm Hw' Hk' Ha' Hgm Hb' Hbm) as [E2 G2].
   split; [congruence|]. eapply geq_trans; [apply geq_sym; exact G2|exact G1].
 Qed.
+
+(* ---------------- clauses 2 + 3 together: a complete invariant ---------------- *)
+Theorem canon_complete_invariant g1 g2 l1 p1 l2 p2 :
+  wf g1 -> kinds_ok g1 -> arcs_ok g1 -> wf g2 ->
+  fst (canon_search g1) = Some (l1, p1) -> fst (canon_search g2) = Some (l2, p2) ->
+  (iso g1 g2 <-> geq (canon_graph g1 p1) (canon_graph g2 p2)).
+Proof.
+  intros W1 K1 A1 W2 B1 B2. split.
+  - intros (f & Hf & Hg). apply geq_sym.
+    apply (canon_invariant_on f g1 g2 l1 p1 l2 p2 Hf W1 K1 A1 (geq_sym _ _ Hg) B1 B2).
+  - apply (canon_complete g1 g2 l1 p1 l2 p2 W1 W2 B1 B2).
+Qed.
